@@ -297,6 +297,7 @@ class Expect:
         self.what = what
         self.tag = None         # site tag used in the violation key instead of the API name
         self.alt_kv = {}        # {key: (value, tag)}: value the *known-deviating* behaviour would give
+        self.range_kv = {}      # {key: (lo, hi)} inclusive integer bounds
 
     def check(self, ev, res, rank):
         out = []
@@ -313,7 +314,14 @@ class Expect:
                 if k in self.alt_kv and str(got) == str(self.alt_kv[k][0]):
                     out.append(Violation(self.alt_kv[k][1], "%s at line %d rank %d: %s=%s, property says %s (%s)" % (api, ev.line, rank, k, got, want, self.what), res))
                     continue
-                out.append(Violation("kv|%s|%s" % (api, k), "%s at line %d rank %d: %s=%s, model says %s (%s)" % (api, ev.line, rank, k, got, want, self.what), res))
+                out.append(Violation("kv|%s|%s" % (self.tag or api, k), "%s at line %d rank %d: %s=%s, model says %s (%s)" % (api, ev.line, rank, k, got, want, self.what), res))
+        for k, (lo, hi) in self.range_kv.items():
+            try:
+                got = int(ev.kv.get(k))
+            except (TypeError, ValueError):
+                got = None
+            if got is None or got < lo or got > hi:
+                out.append(Violation("range|%s|%s" % (self.tag or api, k), "%s at line %d rank %d: %s=%s outside [%s,%s] (%s)" % (api, ev.line, rank, k, got, lo, hi, self.what), res))
         if self.buf is not None:
             got = ev.hexb()
             if got is None or len(got) != len(self.buf):
